@@ -122,7 +122,7 @@ def run(ctx):
                 if arm and a[1] == ('vfield', arm[0][1], 'Linear', '0'):
                     tree_expr = a[0]
                     # input dimension asserted first
-                    chk = any(l[0] == 'true' and l[1][0] == 'bin' and l[1][1] == 'Eq' and is_call(l[1][2], 'AffFuncBase::indim') and l[1][2][2][0] == a[1] for l in lits)
+                    chk = any(op == 'Eq' and is_call(x, 'AffFuncBase::indim') and x[2][0] == a[1] for op, x, y in prune.cmp_facts(lits))
                     ok = chk
                     ctx.ok('C01.R1', site, 'apply_func(payload) after asserting indim(payload) == dim', t['span']) if ok else \
                         ctx.bad('C01.R1', site, 'Linear arm applies the layer without checking its input dimension against the running dimension', t['span'])
@@ -207,7 +207,7 @@ def run(ctx):
             cb, rets = prune.closure_ret(F, cexpr)
             if rets and is_call(rets[0], 'AffFuncBase::outdim'):
                 outdim = True
-        chk = any(l[0] == 'true' and l[1][0] == 'bin' and l[1][1] == 'Eq' and is_call(l[1][2], 'AffTree::in_dim') and l[1][3] == ('param', 'dim') for l in pre[0][3])
+        chk = any(op == 'Eq' and is_call(x, 'AffTree::in_dim') and y == ('param', 'dim') for op, x, y in prune.cmp_facts(pre[0][3]))
         ok = from_terms and outdim and chk
     (ctx.ok if ok else ctx.bad)('C01.R3', Q + '#precondition', 'assert in_dim(pre) == dim, then dim := outdim of its terminals' if ok else
                                 'precondition handling does not assert the input dimension and take the running dimension from its terminals', b.span)
